@@ -14,11 +14,11 @@ CONFIG = dict(
           "stacks over a call-logging table objective: every size 0..50 x {Sequential, Parallel} x rayon pools {none,1,2,4,16} "
           "x identifiers {Global, custom}, plus seeded random step sequences (push/pop/eval, several populations, empty stack, "
           "pre-evaluated and stale members, unregistered identifier => require error); (2) loops guarded by "
-          "LessThanN::evaluations(n) for n<=24 (quick) / 60 (thorough) x pass sizes {1,2,3,5,7,12}; (3) run level: every leaf "
+          "LessThanN::evaluations(n) for n<=24 (quick) / 60 (thorough) x pass sizes {1,2,3,5,7,12}; (2b) the firefly skeleton fa::fa::<P, I> with FireflyPositionsUpdate::<I> for a NON-Global identifier I, with only I registered and with a distinct Global evaluator (own probe) registered as well: the run must succeed, every call must go to I's evaluator and the reported count must equal its probe; (3) run level: every leaf "
           "step of runs of all 21 templates x 3 parameter points x 4 instances x seeds x {seq,par}: counter delta vs. objective "
           "calls, and reported evaluations vs. total calls at the end. A case is non-trivial if it contains an evaluation step "
           "(component level), a loop (budget) or is a template run; distinct = distinct canonical input."),
-    nontrivial=lambda inp: ("(eval " in inp) or inp.startswith("(budget") or inp.startswith("(run"),
+    nontrivial=lambda inp: ("(eval " in inp) or inp.startswith("(budget") or inp.startswith("(run") or inp.startswith("(fa"),
     trusted_base=[
         "rayon scheduler not modelled (parallel call order compared as a multiset; schedule independence is C08)",
         "u32 counter overflow not modelled (counter is a Nat)",
